@@ -51,6 +51,8 @@ class MarketMakerAgent(HighFrequencyAgent):
         if not isinstance(settings["targetMarket"], str):
             raise ValueError("targetMarket must be string")
         self.target_market = self.simulator.name2market[settings["targetMarket"]]
+        if not self.is_market_accessible(market_id=self.target_market.market_id):
+            raise ValueError("targetMarket must be one of the accessible markets")
         if "netInterestSpread" not in settings:
             raise ValueError("netInterestSpread is required for MarketMakerAgent.")
         json_random: JsonRandom = JsonRandom(prng=self.prng)
